@@ -450,9 +450,13 @@ def apply_num(eng, st, inp, rt, mode, order, ty):
     except Dead:
         pass
     ns = st.fork()
+    short = True
     try:
         ns.add_fact(Lin.const(w - 1).sub(ln), eng)
         outs.append(("err", ns, mk_incomplete(eng, rt, Lin.const(w).sub(ln)) if mode == "streaming" else mk_error(eng, rt, 1, "eof")))
     except Dead:
-        pass
+        short = False
+    if mode == "complete":
+        # a complete (non-streaming) primitive: is its short-input outcome feasible here?
+        eng.events.append(("complete_prim", "%s_%s" % (order.lower(), ty), short))
     return outs
